@@ -242,13 +242,43 @@ impl Deserializable for ProofOptions {
     /// # Errors
     /// Returns an error of a valid proof options could not be read from the specified `source`.
     fn read_from<R: ByteReader>(source: &mut R) -> Result<Self, DeserializationError> {
+        let num_queries = source.read_u8()? as usize;
+        let blowup_factor = source.read_u8()? as usize;
+        let grinding_factor = source.read_u8()? as u32;
+        let field_extension = FieldExtension::read_from(source)?;
+        let fri_folding_factor = source.read_u8()? as usize;
+        let fri_remainder_max_degree = source.read_u8()? as usize;
+
+        // the constructor panics on invalid parameters; values read from untrusted bytes must be
+        // validated first
+        let invalid = |msg: &str| Err(DeserializationError::InvalidValue(msg.into()));
+        if num_queries == 0 {
+            return invalid("number of queries must be greater than 0");
+        }
+        if !blowup_factor.is_power_of_two()
+            || !(MIN_BLOWUP_FACTOR..=MAX_BLOWUP_FACTOR).contains(&blowup_factor)
+        {
+            return invalid("blowup factor must be a power of two between 2 and 128");
+        }
+        if grinding_factor > MAX_GRINDING_FACTOR {
+            return invalid("grinding factor cannot be greater than 32");
+        }
+        if !fri_folding_factor.is_power_of_two()
+            || !(FRI_MIN_FOLDING_FACTOR..=FRI_MAX_FOLDING_FACTOR).contains(&fri_folding_factor)
+        {
+            return invalid("FRI folding factor must be a power of two between 2 and 16");
+        }
+        if !(fri_remainder_max_degree + 1).is_power_of_two() {
+            return invalid("FRI polynomial remainder degree must be one less than a power of two");
+        }
+
         Ok(ProofOptions::new(
-            source.read_u8()? as usize,
-            source.read_u8()? as usize,
-            source.read_u8()? as u32,
-            FieldExtension::read_from(source)?,
-            source.read_u8()? as usize,
-            source.read_u8()? as usize,
+            num_queries,
+            blowup_factor,
+            grinding_factor,
+            field_extension,
+            fri_folding_factor,
+            fri_remainder_max_degree,
         ))
     }
 }
